@@ -142,7 +142,7 @@ def gen_graph(rnd, max_classes=4, max_instances=6, max_props=4, bnode_instance_r
         if kind == "integer":
             return lit(str(rnd.randint(0, 999)), XSD_INTEGER)
         if kind == "langString":
-            return lit(b.fresh("w"), None, rnd.choice(["en", "es"]))
+            return lit(b.fresh("w"), None, rnd.choice(["en", "es", "en-GB", "zh-Hant-TW", "de-CH-1996"]))
         if kind == "custom":
             return lit(b.fresh("x"), CUSTOM_DT)
         if kind == "iri_untyped":
